@@ -2618,6 +2618,12 @@ fn normalize_query_for_search<'a>(
     }
 
     let norm_sq = crate::simd::sum_squares_f32(query);
+    if !norm_sq.is_finite() {
+        // Finite components whose squared norm overflows f32: scaling by 1/inf would silently
+        // turn the query into the zero vector (and the cold tier's refusal of that vector would
+        // be counted as a cold-tier failure). Refuse the query itself.
+        anyhow::bail!("invalid query embedding: norm is not finite; cannot normalize");
+    }
     if norm_sq <= f32::EPSILON {
         anyhow::bail!("embedding norm is zero; cannot normalize");
     }
